@@ -43,6 +43,10 @@ Value& MemberCONCATExpression::value(Context& ctx) const
   /* collection */
   if (val.type().level() > 0)
   {
+    /* the variable that holds the table; the iterator of a forall only points
+     * to an element of one: that element is worked on in place */
+    const bool var_name = _exp->isVarName() &&
+            ctx.loadVariable(_exp->symbolId()).type() != Type::POINTER;
     /* when expression is null table, the value will be swapped with that given
      * as an argument; also the linked symbol must be upgraded to the new
      * type, calling ctx.storeVariable(symbol, value) */
@@ -51,7 +55,7 @@ Value& MemberCONCATExpression::value(Context& ctx) const
      * (a table of tuples carries no declaration when null, it is left as is) */
     bool materialized = false;
     if (val.isNull() && val.type().major() != Type::NO_TYPE && val.type().major() != Type::ROWTYPE
-            && !_exp->isVarName())
+            && !var_name)
     {
       val.swap(Value(new Collection(val.type())).to_lvalue(val.lvalue()));
       materialized = true;
@@ -64,7 +68,7 @@ Value& MemberCONCATExpression::value(Context& ctx) const
         if (a0.isNull())
           return val;
         /* a symbol must be upgraded */
-        if (_exp->isVarName())
+        if (var_name)
         {
           if (a0.lvalue())
             ctx.storeVariable(_exp->symbolId(), a0.clone());
@@ -100,7 +104,7 @@ Value& MemberCONCATExpression::value(Context& ctx) const
       else
         rv->push_back(std::move(a0));
       /* a symbol must be upgraded */
-      if (_exp->isVarName())
+      if (var_name)
         ctx.storeVariable(_exp->symbolId(), Value(rv));
       else
         val.swap(Value(rv).to_lvalue(val.lvalue()));
